@@ -23,6 +23,7 @@ EXPLANATION = (
     "values plus the original last (version) value and never raises on a non-integer version; R2.6 that the serialiser writes "
     "one value per slot (no configuration-dependent exclusion). NOT decided: that an independent decoder reads the bytes "
     "msgpack produces; golden corpus."
+    " Also decided (rules added after the fifth blind round): (R2.7) every element typedlist._pack writes is the packed form of a value of the element type."
 )
 RULE_SUMMARY = "instances: format facts resolved at their points of use; non-trivial = required folding through names/partials or a dataflow walk"
 
